@@ -152,8 +152,10 @@ def tlc(module, cfg, workdir, workers=2, timeout=900, args=(), env=None, tag="tl
     cmd = ["timeout", str(timeout), "tlc", "-workers", str(workers), "-metadir", meta, "-cleanup",
            "-noGenerateSpecTE", "-config", cfg] + list(args) + [os.path.join(SPEC, module + ".tla")]
     e = dict(env or {})
-    if java_opts:
-        e["JAVA_TOOL_OPTIONS"] = java_opts
+    # TLC's own temporary directories go under the run's work directory (removed with it), not under /tmp
+    jtmp = os.path.join(workdir, "jtmp")
+    os.makedirs(jtmp, exist_ok=True)
+    e["JAVA_TOOL_OPTIONS"] = ((java_opts + " ") if java_opts else "") + "-Djava.io.tmpdir=" + jtmp
     rc, out = sh(cmd, env=e, check=False, timeout=timeout + 30)
     shutil.rmtree(meta, ignore_errors=True)
     if rc == 124:
